@@ -803,6 +803,29 @@ func (r *c07Run) check(i int, seed int) {
 			}
 		}
 	}
+	// reads at a commit with a filter (the state at the commit, not the index, decides)
+	if len(r.res.Viols) == 0 {
+		ids := r.liveIDs()
+		for k := 0; k < 2 && k < len(ids) && len(r.res.Viols) == 0; k++ {
+			id := ids[mod(r.next(), len(ids))]
+			data, errs := r.pl.GQL(fmt.Sprintf(`query { commits(docID: %q, fieldName: "_C") { cid } }`, id))
+			cs := rows(data, "commits")
+			if len(errs) > 0 || len(cs) == 0 {
+				continue
+			}
+			cid := fmt.Sprint(cs[mod(r.next(), len(cs))]["cid"])
+			// the two nodes hold the same history only if every write took the same path on both
+			if d2, e2 := r.ix.GQL(fmt.Sprintf(`query { commits(cid: %q) { cid } }`, cid)); len(e2) > 0 || len(rows(d2, "commits")) == 0 {
+				r.res.Stats["at_commit_reads_skipped_histories_differ"]++
+				continue
+			}
+			c1, tag := r.cond()
+			r.parts = nil
+			q := fmt.Sprintf("query { User(cid: %q, docID: %q, filter: {%s}) { _docID name age score active born tags nums meta points } }", cid, id, c1)
+			r.compare(i, q, "User", "", "at-commit/"+tag)
+			r.res.Stats["at_commit_reads_compared"]++
+		}
+	}
 	// relation reads through the (possibly indexed) foreign key
 	if len(r.res.Viols) == 0 {
 		r.compare(i, `query { Book(filter: {author: {age: {_ge: 1}}}) { _docID title rating author_id } }`, "Book", "", "Book.author.age")
